@@ -155,12 +155,14 @@ func c13(r *core.Run) {
 	r.Explanation = "Static rules over the block-emission path (functions reachable from the jklmint BeginBlock): the value minted, the value recorded as MintedBlock.Minted and the base handed to the three split functions are one SSA value; that value is the result of the recurrence function whose shape is trunc(prev − decrease/blocksPerYear) with prev read from the record keyed height−1 and the new record keyed height; the value is non-negative by an explicit sign guard; each split transfer depends on its own ratio parameter and the base, with recipients {fee collector, constant dev-grants account, Param(StorageStipendAddress)} and no other bank call from the mint module; every path after a successful mint reaches the record write."
 	r.Assumptions = []string{T1, T3, T6}
 	r.NotDecided = []string{"'fewer than three base units remain' (numeric)", "numeric non-increase beyond the shape/sign argument"}
+	r.Rule("C13/R7", "emission records are visited/deleted only through point keys, prefix iterators or ranges with text-safe bounds: no range bound built from a variable-width decimal (the previous block's record must still exist at the next block)")
 	r.Rule("C13/R1", "minted = recorded = split base: one SSA value feeds the mint coin, MintedBlock.Minted and all three split calls")
 	r.Rule("C13/R2", "recurrence shape: emission = TruncateInt64(Sub(prev, Quo(decrease, blocksPerYear))) with prev ⊵ previous emission only and decrease ⊵ Param(MintDecrease) only")
 	r.Rule("C13/R3", "non-negative: the emission value is established non-negative by a sign guard before it reaches the coin constructor")
 	r.Rule("C13/R4", "splits: each transfer's amount ⊵ its own ratio parameter and the base and no other ratio; recipients = {fee collector, constant dev-grants account, Param(StorageStipendAddress)}; no other bank call on the path; exactly one MintCoins")
 	r.Rule("C13/R5", "recorded on every minting path: every path after the mint call reaches the MintedBlock write")
 	r.Rule("C13/R6", "recurrence link: previous record read with key Ctx.BlockHeight−1, new record written with Height = Ctx.BlockHeight, same prefix")
+	iteratorHygiene(r, "C13/R7", moduleFuncs(p, "jklmint"))
 	bb, _ := p.BlockEntries()
 	var entry *ssa.Function
 	for _, fn := range bb {
